@@ -86,15 +86,12 @@ def run(ctx):
     return core.finish(ctx)
 
 
-def check_cfg(ctx, fx, cfg):
-    # R10.4 a tick is refused only when the actor is gone (the timers end on the first refused tick): shared with C15
-    from props.c15 import check_forcing_never_refuses
-    check_forcing_never_refuses(ctx, fx, cfg, "R10.4")
-    # R10.5 (shared with C07) a restart ends the timers of the incarnation it replaces
-    from props import c07 as _c07
-    core.shared(ctx, "R10.5", _c07.check_restart_aborts_timers, ctx, fx, cfg, "R10.5")
+def check_timer_protocol(ctx, fx, cfg, RULE="R10.1"):
+    """R10.1 the protocol of every timer body (sleep, submit, look at the outcome, end on a refused tick and only then). Also
+    armed under C15 (a timer of a live actor keeps firing). Returns the analysed bodies for the rules that follow."""
+    per = []
     tcs = timers.timer_coroutines(fx)
-    ctx.floor("R10.1", "timer coroutines (%s)" % cfg, len(tcs), 2)  # at least one periodic and one one-shot body (APIs may share bodies)
+    ctx.floor(RULE, "timer coroutines (%s)" % cfg, len(tcs), 2)  # at least one periodic and one one-shot body (APIs may share bodies)
     A = nfa.Alphabet(
         calls=[("sleep", nfa.trait_method(timers.T_SPAWNF, "sleep")), ("submit", is_submit), ("is_err", nfa.callee_ends("::is_err")), ("is_ok", nfa.callee_ends("::is_ok"))],
         adts={"core::result::Result": "Res"}, bools={"is_err", "is_ok"}, fut_types=[("core::pin::Pin<&mut F>", "userfut")])
@@ -121,9 +118,22 @@ def check_cfg(ctx, fx, cfg):
             viols, ps = nfa.check(n, TimerSpec(api not in ONESHOT, api == "delayed_exec"), init_corr=init or None)
             ctx.count_nfa(n.stats(), ps)
             for v in viols:
-                ctx.viol("R10.1", inst, v["msg"], fn=f["def"], site=f["loc"], trace=v["trace"])
+                ctx.viol(RULE, inst, v["msg"], fn=f["def"], site=f["loc"], trace=v["trace"])
             if not viols:
-                ctx.ok("R10.1", inst, f["loc"], {"words": [" ".join(w) for w in nfa.words(n, limit=2)], "nfa": n.stats(), "bound": consts})
+                ctx.ok(RULE, inst, f["loc"], {"words": [" ".join(w) for w in nfa.words(n, limit=2)], "nfa": n.stats(), "bound": consts})
+        per.append((f, crs, b, api))
+    return per, seen
+
+
+def check_cfg(ctx, fx, cfg):
+    # R10.4 a tick is refused only when the actor is gone (the timers end on the first refused tick): shared with C15
+    from props.c15 import check_forcing_never_refuses
+    check_forcing_never_refuses(ctx, fx, cfg, "R10.4")
+    # R10.5 (shared with C07) a restart ends the timers of the incarnation it replaces
+    from props import c07 as _c07
+    core.shared(ctx, "R10.5", _c07.check_restart_aborts_timers, ctx, fx, cfg, "R10.5")
+    per, seen = check_timer_protocol(ctx, fx, cfg)
+    for f, crs, b, api in per:
         # the submit's result must be looked at (periodic): is_err/is_ok or a match
         if api in PERIODIC:
             for bi, t in b.normal_calls():
@@ -232,7 +242,7 @@ def check_cfg(ctx, fx, cfg):
     regs = [r for r in timers.registrars(fx) if r.startswith("context::")]
     for r in regs:
         c06.check_registrar(ctx, fx, fx.fn(r), cfg)
-    for f in tcs:
+    for f, _crs, _b, _api in per:
         co = fx.coroutines.get(f["def"])
         bad = []
         if co and "suspensions" in co:
